@@ -29,13 +29,13 @@ TEXT = {'text': 'Kernel-checked theorems in the ideal-commitment model (level: p
          'transaction with positive amounts, balanced per asset including explicit issuances, opened by the caller\'s secrets, with at least one marked '
          'output on an address script, Transaction::blind succeeds and the result passes verify_tx_amt_proofs (C04_blind_verifies); every marked '
          'output is reported, carries exactly the commitments of the reported factors and unblinds with the receiver key to the original asset/value '
-         'and those factors, nothing else changes (C04_unblind, from ECDH symmetry only). Refutation: with no output marked blind panics and '
-         'TooFewBlindingOutputs is never returned (C04_no_marked_panics / C04_no_marked_refuted, finding F12). The model is tied to the crate on '
+         'and those factors, nothing else changes (C04_unblind, from ECDH symmetry only). With no output marked blind returns '
+         'TooFewBlindingOutputs and never panics (C04_no_marked_error / C04_no_marked_never_panics; finding F12 repaired by 8d5600e). The model is tied to the crate on '
          'every run: generated transactions are blinded by the real crate under a seeded RNG, and the model, fed the drawn scalars, must reproduce '
          'bit-exactly the returned map (incl. the last value blinding factor), the verification verdict and the unblinded secrets.',
  'design_ref': 'DESIGN.md section 6, C04',
  'note': 'Trusted: Coq kernel; the ideal-commitment idealisation (no statement about libsecp256k1-zkp); hand-written Gallina model of blind/verify/unblind '
-         'tied by per-run correspondence; harness. Known finding F12 (panic when nothing is marked). New observation: verify_tx_amt_proofs panics '
+         'tied by per-run correspondence; harness. Finding F12 (panic when nothing is marked) is fixed (8d5600e); a return of it is a VIOLATION. Observation: verify_tx_amt_proofs panics '
          '(assert in PedersenCommitment::new_unblinded) on an explicit issuance amount of 0.',
  'technique': 'Coq proof in an ideal-commitment model (ring identities in Z/n via a congruence setoid, loop invariant over the output loop, '
               'coefficient calculus in the free module) + per-run bit-exact model/implementation correspondence'}
